@@ -56,6 +56,8 @@ def run_case(case):
         A = np.asfortranarray(A)
     elif case.get('order') == 'T':
         A = np.ascontiguousarray(A.T).T                          # transposed view of a C array
+    if case.get('dtype'):
+        A = A.astype(case['dtype'])                              # storage axis: the integer weights fit the dtype exactly
     rec = Recorder(case['seed'])
     t = case.get('t', 4.0)
     A0 = A.copy()
@@ -131,6 +133,17 @@ def run_case(case):
     return res
 
 
+def pick_dtype(rs, A):
+    """a storage dtype that holds the integer-valued matrix A exactly (the usual ways of storing a binary / integer network)"""
+    A = np.asarray(A)
+    opts = ['int64', 'int32', 'float32']
+    if A.min() >= 0 and A.max() <= 255:
+        opts.append('uint8')
+    if set(np.unique(A)) <= {0, 1}:
+        opts += ['bool', 'bool']
+    return str(rs.choice(opts))
+
+
 def default_D(n):
     D = np.zeros((n, n))
     for i in range(n):
@@ -203,6 +216,8 @@ def gen_cases(rs, tier, routines=ROUTINES):
                 elif kind == 2 and n > 5:
                     v, w = rs.choice(n, 2, replace=False); A[v, :] = 1; A[:, v] = 1; A[v, v] = 0; A[w, :] = 0; A[:, w] = 0
                 cases.append({'routine': r, 'A': A.tolist(), 'itr': 1, 'alpha': float(rs.choice([0, .5, 1.0, 1.0])), 'seed': int(rs.randint(2 ** 31))})
+                if rs.rand() < .4:
+                    cases[-1]['dtype'] = pick_dtype(rs, A)
             continue
         # exhaustive small graphs (a slice of them in the quick tier)
         nsmall = 4
@@ -250,6 +265,8 @@ def gen_cases(rs, tier, routines=ROUTINES):
                     c['A'] = (A * np.where(bigm, c['den'], 1)).tolist()      # mixed scales: some unit-scale, some tiny
             elif u < .4:
                 c['order'] = str(rs.choice(['F', 'T']))
+            elif u < .65:
+                c['dtype'] = pick_dtype(rs, A)
             if r == 'partial_und':
                 c['B'] = rand_graph(rs, n, float(rs.choice([0, .2, .5])), False).tolist()
                 c['itr'] = int(rs.randint(0, 6))
